@@ -52,6 +52,12 @@ add("C19", "fault_enumeration",
     "deterministic simulation: crash-point enumeration and disk-fault injection on an interposed file system, byte-scan durability oracle",
     "DESIGN.md section 5 C19")
 
+add("C11", "exploration",
+    "Seeded operation histories (get in any order, next, DataLoader epochs, npz reopen, functional-API calls, RNG jumps) over the four Dataset classes in in-memory and npz mode on synthetic label sets with NaN/empty/predicted instances; after every operation labels and call arguments are compared bit-for-bit with pristine copies, every sample with its first read and with a fresh dataset built from a pristine copy, plus NaN-in=>NaN-out, centroid fallback and dataset length.",
+    "Augmentation off for dataset reads; in-memory video backend; num_workers=0; filtering lf.instances to user instances is treated as documented behaviour.",
+    "deterministic simulation: seeded operation histories against a pristine-copy reference model (history independence / purity)",
+    "DESIGN.md section 5 C11")
+
 PENDING = ["C02","C03","C04","C09","C10","C11","C12","C14","C18","C19"]
 
 def main():
